@@ -8,7 +8,7 @@ ROOT_VERIFY = "tough::schema::verify::<impl tough::schema::Root>::verify_role"
 
 
 def run(chk, prog):
-    chk.rules_live = ["R1", "R2", "R3", "R4", "R5"]
+    chk.rules_live = ["R1", "R2", "R3", "R4", "R5", "R6"]
     chk.explanation = (
         "Must-pass-through / who-may-write rules over the MIR of tuftool::root: every subcommand that "
         "writes a root loaded from disk reaches write_file only through clear_sigs on that very root "
@@ -69,6 +69,7 @@ def run(chk, prog):
     r2_effects(chk, prog)
     r3_keyids(chk, prog)
     r4_sign(chk, prog)
+    r6_old_signatures(chk, prog)
 
 
 def r2_effects(chk, prog):
@@ -227,3 +228,40 @@ def r4_sign(chk, prog):
                 "result, so signatures by keys that are not root-role keys (left by an earlier cross-sign) "
                 "count: threshold 2, `sign -i --cross-sign old -k old` then `sign -k new1` succeeds with one "
                 "root-key signature", ctx.site(pb[0]), path=ctx.describe_path(p))
+
+
+def r6_old_signatures(chk, prog):
+    """`sign` keeps signatures already in the file: at most one signature per key id may result,
+    otherwise the signature-count test of `sign` is met by one key signing twice"""
+    AOS = "tough::editor::signed::SignedRole::add_old_signatures"
+    ctx = ctx_of(prog, AOS)
+    if ctx is None:
+        chk.anchor_missing("R6", AOS)
+        return
+    chk.analysed_body(ctx.body)
+    pushes = [bb for bb, t in ctx.calls("alloc::vec::Vec::push")
+              if any(o.fields[-1:] == ("signatures",) for o in ctx.origins.of_operand(t.args[0]))]
+    guards = []
+    for bb, t in ctx.calls("core::iter::traits::iterator::Iterator::any", "core::slice::<impl [T]>::contains"):
+        if not t.is_call_to("core::iter::traits::iterator::Iterator::any"):
+            continue
+        clo = [o for o in ctx.origins.of_operand(t.args[1]) if o.kind == "agg"]
+        good = False
+        for o in clo:
+            cpath = o.key[2].split(":", 1)[1]
+            cctx = ctx_of(prog, cpath)
+            if cctx is None:
+                continue
+            for (cb, op, a, b_, tr, sp) in cctx.comparisons():
+                if op != "eq":
+                    continue
+                oa, ob = cctx.origins.of_operand(a), cctx.origins.of_operand(b_)
+                if oa and ob and all(x.fields[-1:] == ("keyid",) for x in oa | ob):
+                    good = True
+        if good:
+            guards.extend(ctx.tracker.track(t.dest.local, is_bool=True).neg_edges(0))
+    p = ctx.cfg.witness_path(pushes, guards)
+    chk.require(bool(pushes) and bool(guards) and p is None, "R6", ctx.fn, "one-signature-per-keyid",
+                "an old signature is kept on a path that does not pass the edge 'no signature with the same key id is "
+                "present yet': one key could contribute two signatures and satisfy `sign`'s signature count alone",
+                path=ctx.describe_path(p))
